@@ -80,6 +80,11 @@ func isoTrees(e *Env, r *rand.Rand, parent string, hostileNames bool) []isoCase 
 	mk("sector-multiples", false, map[string]int64{"a": 2048, "b": 4096, "c": 2047, "d": 2049, "e": 1})
 	mk("empty-dirs", false, map[string]int64{"x/file": 10}, "e1", "e2/e3", "x/empty")
 	mk("single-file", true, map[string]int64{"only.bin": 65537})
+	// a file and a sibling directory whose names differ only in case (same identifier in the primary
+	// hierarchy apart from the kind): both must be there, the directory with its own children
+	mk("file-dir-case", false, map[string]int64{"name": 5, "NAME/in": 7, "NAME/sub/deep": 2049, "zz": 1})
+	mk("dir-file-case", false, map[string]int64{"Data/in": 7, "data": 5, "x/Data": 3, "x/data/y": 4})
+	mk("file-dir-case-ps3", true, map[string]int64{"usrdir": 5, "USRDIR/eboot.bin": 4097})
 	// directories whose records end exactly on a sector border, in the primary or the Joliet hierarchy
 	// ("." and ".." take 34+34 bytes; a record is 33+len+pad bytes, Joliet names take 2 bytes per character)
 	for L := 1; L <= 16; L++ {
